@@ -5,6 +5,7 @@ package env
 import (
 	"fmt"
 	"sort"
+	"strings"
 	"time"
 
 	"github.com/rs/zerolog"
@@ -37,3 +38,29 @@ func SortedKeys[V any](m map[string]V) []string {
 
 // SimEpoch is the fake clock's start inside every bubble.
 var SimEpoch = time.Date(2000, 1, 1, 0, 0, 0, 0, time.UTC)
+
+// PanicSite extracts the vouch function in which a recorded panic occurred
+// (first frame below the panic inside github.com/attestantio/vouch), for use in
+// violation fingerprints: e.g. "strategies/beaconblockroot/latest.(*Service).beaconBlockRoot".
+func PanicSite(detail string) string {
+	const mod = "github.com/attestantio/vouch/"
+	i := strings.Index(detail, "\npanic(")
+	if i < 0 {
+		i = 0
+	}
+	rest := detail[i:]
+	for _, line := range strings.Split(rest, "\n") {
+		if strings.HasPrefix(line, mod) {
+			fn := strings.TrimPrefix(line, mod)
+			if j := strings.Index(fn, "("); j >= 0 {
+				// keep "(*Service).method" but drop the argument list
+				if k := strings.LastIndex(fn, "("); k > j || !strings.Contains(fn[:k], ")") {
+					fn = fn[:strings.LastIndex(fn, "(")]
+				}
+			}
+			fn = strings.TrimPrefix(fn, "services/")
+			return fn
+		}
+	}
+	return "unknown"
+}
